@@ -213,8 +213,75 @@ def _task_huge(args):
     return stats, vios, None
 
 
+def it_feed_conn(data_chunks, cid):
+    """one item per chunk, delivered on connection #cid once it exists"""
+    def mk_item(chunk):
+        def item(sess):
+            if len(sess.gw.conns) <= cid or sess.client.state != vloop.State.CONNECTED:
+                return False
+            c = sess.gw.conns[cid]
+            if not c.alive or c.eof_sent:
+                return True
+            sess.env(c.transport.env_feed, chunk)
+            return True
+        return item
+    return [mk_item(c) for c in data_chunks]
+
+
+def _task_reconnect(args):
+    """a link that drops in the middle of a packet, then a new connection with a clean stream: whatever the old
+    connection left half received is undecodable input and must not cost the new connection a single message"""
+    kind, = args
+    items = alphabet(kind)
+    vios = []
+    stats = {"runs": 0, "streams": 0, "nontrivial": 0, "outcomes": set()}
+    sample = None
+    first = items["A"]
+    second = [items["A2"], items["A"], items["B1"]] + ([items["B2"]] if "B2" in items else [])
+    stream2 = b"".join(second)
+    exp1 = expected(kind, first)
+    exp2 = expected(kind, first + stream2)[len(exp1):]
+    victim = items["A2"]
+    # text lines: cut inside the time stamp so that what was received cannot pass for a (shorter) valid line
+    cuts = range(1, len(victim)) if kind in ("ebyte", "waveshare") else range(1, 9)
+    for how in ("eof", "reset"):
+        for j in cuts:
+            for seg2 in ((), (7,), tuple(range(5, len(stream2), 5))):
+                drop = (lambda sess: (vloop.sp_eof(sess) or True)) if how == "eof" else (lambda sess: (vloop.sp_reset(sess) or True))
+                script = [it_connect, vloop.it_feed(first + victim[:j], 0), drop] + it_feed_conn(split(stream2, seg2), 1)
+                sess = vloop.Session(kind=kind, script=script)
+                o = sess.run()
+                stats["runs"] += 1
+                stats["nontrivial"] += 1
+                got = [v for _, v in o.received]
+                stats["outcomes"].add(len(got))
+                bad = sorted(k for k in ("livelock", "watchdog", "busy_loop") if o.flags.get(k))
+                res = None
+                if bad or o.end_reason != "quiescent":
+                    res = ("hang", {"end": o.end_reason}, f"execution ended with {o.end_reason} {o.flags}")
+                elif len(sess.gw.conns) < 2 or not o.flags.get("script_done"):
+                    res = ("stream_not_consumed", {}, f"second connection never fed: {len(sess.gw.conns)} connection(s), status {o.status}")
+                elif got != exp1 + exp2:
+                    k = "messages_lost_after_reconnect" if len(got) < len(exp1 + exp2) else "duplicated_or_extra"
+                    res = (k, {"expected": len(exp1 + exp2), "got": len(got)},
+                           f"expected PGNs {[e[0] for e in exp1 + exp2]}, callback got {[g[0] for g in got]}")
+                if res:
+                    vios.append({"kind": res[0], "facts": dict(res[1], client=kind, mechanism="state_survives_reconnect"),
+                                 "signature": f"reconnect:{res[0]}:{kind}:{how}",
+                                 "detail": f"[{kind} connection 0: one packet + {j} bytes of the next, then {how}; connection 1: clean stream cut at {list(seg2)[:4]}] {res[2]}",
+                                 "case": {"client": kind, "reconnect": True, "how": how, "j": j, "seg2": list(seg2)}})
+                elif sample is None:
+                    sample = {"client": kind, "reconnect_after": f"{j} bytes of a packet then {how}", "delivered": len(got)}
+    stats["outcomes"] = len(stats["outcomes"])
+    return stats, vios[:40], sample
+
+
 def _dispatch(t):
-    return _task_huge(t[1:]) if t[0] == "huge" else _task(t)
+    if t[0] == "huge":
+        return _task_huge(t[1:])
+    if t[0] == "reconnect":
+        return _task_reconnect(t[1:])
+    return _task(t)
 
 
 def mk(kind, seq, cuts, cb, devs, kk, f, d):
@@ -256,7 +323,7 @@ def plan(ctx):
 
 
 def run(ctx):
-    tasks = plan(ctx) + [("huge", "yd"), ("huge", "actisense")]
+    tasks = plan(ctx) + [("huge", "yd"), ("huge", "actisense")] + [("reconnect", k) for k in vloop.KINDS]
     results = common.pmap(_dispatch, tasks)
     vios, samples = [], []
     runs = streams = nontriv = outcomes = 0
@@ -272,7 +339,8 @@ def run(ctx):
         "states": streams, "transitions": runs, "traces_validated_against_impl": runs, "evaluations": runs,
         "distinct_nontrivial": nontriv, "distinct_outcomes": outcomes,
         "rule": "streams = sequences over the per-client packet alphabet; one execution per (stream, segmentation, callback pattern, "
-                "early-delivery placement); non-trivial = at least one cut or a failing/slow callback",
+                "early-delivery placement); plus, per client, a connection dropped (EOF / reset) after every prefix of a packet and a clean "
+                "stream on the next connection; non-trivial = at least one cut or a failing/slow callback",
         "samples": samples,
         "bound_completed": ("streams <=3 items (<=4 over the core alphabet); <=3 cuts (binary clients) / <=2 cuts (text clients) for <=2 items" if ctx.thorough
                             else "streams <=3 items; <=2 cuts for 1 item, <=2 (binary) / <=1 (text) cuts for 2 items, <=1 cut for 3 items; all 3^n callback patterns on <=1-cut runs"),
@@ -286,6 +354,9 @@ def run(ctx):
 def replay(ctx, rep):
     c = rep["case"]
     kind = c["client"]
+    if c.get("reconnect"):
+        st, v, _ = _task_reconnect((kind,))
+        return [x for x in v if all(x["case"][k] == c[k] for k in ("how", "j", "seg2"))][:1] or v[:1]
     items = alphabet(kind)
     stream = b"".join(items[n] for n in c["stream"])
     exp = expected(kind, stream)
